@@ -167,8 +167,27 @@ def which_table(kind, verdict, verb):
     raise ValueError(kind)
 
 
-def compare_table(got, heads, rows):
-    """got = parsed table (header row first). Returns a problem text or ''."""
+def compare_table(got, heads, rows, subset_ok=False):
+    """got = parsed table (header row first). Returns a problem text or ''.
+    subset_ok: the table may show only some of the bins (which verbosity shows what is not part of the property), but every
+    shown row must be a correct row and every failing bin must be shown."""
+    if subset_ok and got and [c[0] for c in got[0]] == heads:
+        shown = [tuple(r) for r in got[1:]]
+        full = {tuple(r) for r in rows}
+        for row in shown:
+            if row not in full:
+                same_text = [r for r in full if [c[0] for c in r] == [c[0] for c in row]]
+                if same_text:
+                    exp = same_text[0]
+                    j = next(i for i, (a, b) in enumerate(zip(row, exp)) if a != b)
+                    return f'row {[c[0] for c in row][:3]} column {heads[j]!r} ({row[j][0]}): highlighted={row[j][1]}, expected {exp[j][1]}'
+                return f'row {[c[0] for c in row]} is not a row of the inputs'
+        missing = [r for r in full if any(c[1] for c in r) and r not in shown]
+        if missing:
+            return f'failing bin {[c[0] for c in missing[0]][:3]} is not shown (highlighted rows must be exactly the failing bins)'
+        if len(set(shown)) != len(shown):
+            return 'a bin is shown twice'
+        return ''
     if not got:
         return 'empty table'
     ghead = [c[0] for c in got[0]]
@@ -234,22 +253,15 @@ def judge_dataset(rep, kind, result, case, shape_tag):
                 judge_composite(rep, kind, result, rname, verb, tables, loose, ctag, ccase)
                 continue
             marks = bool(loose) or any(c[1] for t in tables for r in t for c in r)
-            what = which_table(kind, verdict, verb)
-            if rname == 'rst' and what == 'none':
-                pass
             if marks != (not verdict):
                 rep.violate(f'C12|mark-vs-verdict|{kind}|{rname}|{verb.name}', f'verdict {verdict} but failure mark present={marks}', ccase)
-            if what in ('full', 'failing'):
-                heads, rows = expected_table(kind, result, what == 'failing')
-                if len(tables) != 1:
-                    rep.violate(f'C12|table-count|{ctag}', f'{len(tables)} tables, expected 1', ccase)
-                else:
-                    prob = compare_table(tables[0], heads, rows)
-                    if prob:
-                        clause = 'highlight-rows' if 'highlighted=' in prob else 'cells'
-                        rep.violate(f'C12|{clause}|{ctag}', prob, ccase)
-            elif what == 'none' and (tables or loose) and rname != 'rst':
-                rep.violate(f'C12|unexpected-output|{ctag}', 'something rendered where the verbosity dispatch documents nothing', ccase)
+            # whatever per-bin table is shown at this verbosity must consist of correct rows and hold every failing bin
+            heads, rows = expected_table(kind, result, False)
+            for tab in tables:
+                prob = compare_table(tab, heads, rows, subset_ok=True)
+                if prob:
+                    clause = 'highlight-rows' if ('highlighted' in prob or 'not shown' in prob) else 'cells'
+                    rep.violate(f'C12|{clause}|{ctag}', prob, ccase)
 
 
 def judge_composite(rep, kind, result, rname, verb, tables, loose, ctag, ccase):
@@ -297,13 +309,11 @@ def judge_composite(rep, kind, result, rname, verb, tables, loose, ctag, ccase):
         if marks != (not bool(result.first_test_res)):
             rep.violate(f'C12|mark-vs-verdict|{kind}-first-test|{rname}|{verb.name}',
                         f'first test verdict {bool(result.first_test_res)} but mark in its table={marks}', ccase)
-        fverb = Verbosity(verb.value - 1) if verdict else verb
-        what = which_table('student', bool(result.first_test_res), fverb)
-        if what in ('full', 'failing') and len(first_tables) == 1:
-            heads, rows = expected_table('student', result.first_test_res, what == 'failing')
-            prob = compare_table(first_tables[0], heads, rows)
+        heads, rows = expected_table('student', result.first_test_res, False)
+        for tab in first_tables:
+            prob = compare_table(tab, heads, rows, subset_ok=True)
             if prob:
-                rep.violate(f'C12|{"highlight-rows" if "highlighted=" in prob else "cells"}|{ctag}', 'first test table: ' + prob, ccase)
+                rep.violate(f'C12|{"highlight-rows" if ("highlighted" in prob or "not shown" in prob) else "cells"}|{ctag}', 'first test table: ' + prob, ccase)
 
 
 # ------------------------------------------------------------------ slicing / joining
